@@ -762,6 +762,17 @@ func (e *Exec) verifIntrinsic(fr *frame, st *State, name string, fn *ssa.Functio
 		return smt.App("uf|"+args[0].Name, BV64, IVal(args[1]))
 	case "verif_ghost_int":
 		return e.ghostInt(st, args[0].Name)
+	case "verif_record":
+		// history ghost: at a call site the variable takes the value the expression has when the callee
+		// returns; while the callee itself is verified the clause is bookkeeping only
+		if h := e.curH(); h.apply {
+			e.ghostInt(st, args[0].Name)
+			st.Ghost["G|"+args[0].Name] = args[1]
+			if e.disc != nil {
+				e.disc.ghost["G|"+args[0].Name] = true
+			}
+		}
+		return unit
 	case "verif_ghost_map":
 		return smt.Select(e.ghostInt(st, args[0].Name), args[1])
 	case "verif_ghost_map_old":
